@@ -5,16 +5,16 @@ CONSTANTS
   UseRuleSets = {"E1"}
   ScacheGCEvery = 1
   ProvGCEvery = 1
-  MaxTime = 2
+  MaxTime = 3
   Pick <- PickAll
   KnownGaps = {"F2a", "F2b", "F2c"}
   PutAlerts = {"S1", "S2", "B"}
   Queries = {"S1", "B", "T", "T2"}
   MuteQueries = {"B", "T"}
-  StartModes = {"same", "now"}
+  StartModes = {"same"}
   EndOffs = {1, 2, 3}
   Timeouts = {TRUE, FALSE}
-  QueueBound = 1
+  QueueBound = 0
 VIEW View
 INVARIANTS InvRefinesOrKnown InvSound IndexInCache CacheComplete
 PROPERTIES MuteVerdictExactOrKnown
